@@ -58,7 +58,7 @@ Definition builder_panic (stk : list pitem) (st : nst) : Prop :=
 Lemma early_other_no_panic v st x : early_other v st x <> PPanic.
 Proof.
   unfold early_other. destruct st as [st|]; [|discriminate].
-  destruct (match v with Cur => true | Fix => negb (kw_tok x) end); [|discriminate].
+  destruct (match v with Cur => true | Fix | Fix2 => negb (kw_tok x) end); [|discriminate].
   destruct (nst_get st x); discriminate.
 Qed.
 
@@ -105,7 +105,7 @@ Theorem run_panic_step v : forall toks stk st o,
     toks = pre ++ tok :: post /\ run_state v pre stk st o = inr (stk', st', o') /\ step v tok stk' st' o' = PPanic.
 Proof.
   induction toks as [|tok toks IH]; intros stk st o H.
-  - left. cbn [run] in H. destruct v; [|discriminate]. split; [reflexivity|]. now exists stk, st, o.
+  - left. cbn [run] in H. destruct v; [|discriminate|discriminate]. split; [reflexivity|]. now exists stk, st, o.
   - cbn [run] in H. destruct (step v tok stk st o) as [[[stk1 st1] o1] | |] eqn:Es; [| discriminate |].
     + destruct (machine_done stk1) eqn:Ed; [discriminate|].
       destruct (IH _ _ _ H) as [[Ev (stk' & st' & o' & Hr)] | (pre & t & post & stk' & st' & o' & Ht & Hr & Hs)].
@@ -192,17 +192,28 @@ Proof. split; vm_compute; reflexivity. Qed.
 
 (** ** the round trip of the repaired reader: numerals, [_] and [as] may be keys of the symbol table *)
 
-Definition table_for_fix (top : symtab) (e : expr) : Prop :=
-  (forall n t, In (n, t) (symbols e) -> name_ok Fix n = true /\ assoc_str n top = Some (sym_of n t)) /\
-  (forall n, name_ok Fix n = false -> assoc_str n top = None).
+Definition table_for_fix (v : variant) (top : symtab) (e : expr) : Prop :=
+  (forall n t, In (n, t) (symbols e) -> name_ok v n = true /\ assoc_str n top = Some (sym_of n t)) /\
+  (forall n, name_ok v n = false -> assoc_str n top = None).
 
-Lemma table_for_fix_intro top e : table_for_fix top e -> table_for Fix top e.
+Lemma table_for_fix_intro v top e : v <> Cur -> table_for_fix v top e -> table_for v top e.
 Proof.
-  intros [H1 H2]. split; [exact H1|]. intros n [Hn | [E _]]; [now apply H2 | discriminate E].
+  intros Hv [H1 H2]. split; [exact H1|]. intros n [Hn | [E _]]; [now apply H2 | now elim Hv].
 Qed.
 
 Theorem parse_ser_fix :
-  forall (top : symtab) (e : expr) (mb : bool),
-    wt e = true -> built e = true -> idx32 e = true -> table_for_fix top e ->
-    parse_expr_toks Fix top (toks_of_sx (ser Fix e mb)) = POk (rt e mb) /\ equiv e (rt e mb).
-Proof. intros top e mb Hwt Hbu Hix Ht. apply parse_ser_lemma; try assumption. now apply table_for_fix_intro. Qed.
+  forall (v : variant) (top : symtab) (e : expr) (mb : bool),
+    v <> Cur -> wt e = true -> built e = true -> idx32 e = true -> table_for_fix v top e ->
+    parse_expr_toks v top (toks_of_sx (ser v e mb)) = POk (rt e mb) /\ equiv e (rt e mb).
+Proof. intros v top e mb Hv Hwt Hbu Hix Ht. apply parse_ser_lemma; try assumption. now apply table_for_fix_intro. Qed.
+
+(** every proper prefix of the writer's output is an error *)
+Theorem truncated_is_error_repaired :
+  forall (v : variant) (top : symtab) (e : expr) (mb : bool) (p q : list ltok),
+    v <> Cur -> wt e = true -> built e = true -> idx32 e = true -> table_for v top e ->
+    toks_of_sx (ser v e mb) = p ++ q -> q <> [] ->
+    parse_expr_toks v top p = PErr.
+Proof.
+  intros v top e mb p q Hv Hwt Hbu Hix Ht Hpq Hq.
+  rewrite (truncated_lemma v top e mb p q Hwt Hbu Hix Ht Hpq Hq). destruct v; [now elim Hv | reflexivity | reflexivity].
+Qed.
